@@ -511,7 +511,10 @@ impl<'a> DebugWithDb<'a> for GeneratedFunction<'a> {
                     func_ptr.kind(db),
                     SyntaxKind::FunctionWithBody | SyntaxKind::TraitItemFunction
                 ) {
-                    func_ptr = func_ptr.parent(db)
+                    // A loop inside an inline macro argument lives in the macro's virtual file,
+                    // whose root has no enclosing function node.
+                    let Some(parent) = func_ptr.0.parent(db) else { break };
+                    func_ptr = cairo_lang_syntax::node::ids::SyntaxStablePtrId(parent);
                 }
 
                 let span = expr_ptr.0.lookup(db).span(db);
